@@ -362,11 +362,13 @@ fn key() -> impl Strategy<Value = u32> {
   0..NK
 }
 
-fn op_strategy(f: Focus, has_loader: bool) -> BoxedStrategy<POp> {
+fn op_strategy(f: Focus, has_loader: bool, is_b: bool) -> BoxedStrategy<POp> {
   // weights: [insert, insert_ttl, remove/invalidate, clear, reads, entry-get, or_insert, compute, fetch_with, multi_insert, multi_remove, maint]
   let w: [u32; 12] = match f {
     Focus::C11 => [8, 1, 6, 1, 5, 1, 12, 12, 3, 2, 2, 1],
-    Focus::C12 => [4, 2, 2, 1, 10, 2, 6, 10, 14, 1, 1, 2],
+    // C12: A mostly dwells in a closure under the shard lock, B mostly reads
+    Focus::C12 if !is_b => [2, 1, 1, 1, 4, 6, 12, 16, 4, 1, 1, 1],
+    Focus::C12 => [2, 1, 2, 1, 14, 3, 2, 2, 22, 1, 1, 1],
     Focus::C13 => [14, 2, 8, 6, 1, 1, 6, 2, 4, 4, 4, 2],
     Focus::C15 => [4, 1, 4, 1, 3, 1, 2, 2, 30, 1, 1, 1],
     Focus::C16 => [8, 1, 12, 3, 2, 1, 4, 2, 3, 2, 8, 2],
@@ -485,16 +487,19 @@ pub fn scenario_strategy(f: Focus) -> impl Strategy<Value = Scenario> {
     let hl = cfg.loader != PLoader::None;
     let timed = cfg.ttl_ms.is_some();
     let step = if timed { proptest::option::weighted(p_step as f64 / 100.0, prop_oneof![Just(1u16), Just(9), Just(10), Just(11), Just(40), Just(49), Just(50), Just(51), Just(60), Just(100), Just(101)]).boxed() } else { Just(None::<u16>).boxed() };
+    let pause = || prop_oneof![6 => any::<u16>().prop_map(PausePt::Nth), 2 => Just(PausePt::Closure), 2 => Just(PausePt::Loader)];
+    // "expiry prelude": load / insert the key of A (or B) and let its lifetime pass by `x` ms
+    let prelude = proptest::option::weighted(if timed { 0.6 } else { 0.01 }, (any::<bool>(), any::<bool>(), prop_oneof![Just(0u16), Just(1), Just(9), Just(40), Just(49), Just(50), Just(51)]));
     (
       Just(cfg),
       proptest::collection::vec(setup_strategy(hl, timed), 0..6),
-      (op_strategy(f, hl), proptest::option::weighted(0.93, any::<u16>())),
-      (op_strategy(f, hl), proptest::option::weighted(0.35, any::<u16>()), prop::bool::weighted(0.6)),
+      (op_strategy(f, hl, false), proptest::option::weighted(0.93, pause())),
+      (op_strategy(f, hl, true), proptest::option::weighted(if f == Focus::C15 { 0.55 } else { 0.35 }, pause()), prop::bool::weighted(0.6)),
       step,
-      proptest::collection::vec(suffix_strategy(hl), 0..4),
+      (proptest::collection::vec((suffix_strategy(hl), prop::bool::weighted(0.7)), 0..4), prelude),
     )
   })
-  .prop_map(move |(cfg, setup, (a, pa), (mut b, pb, same_key), step_ms, suffix)| {
+  .prop_map(move |(cfg, mut setup, (a, pa), (mut b, pb, same_key), step_ms, (suffix, prelude))| {
     // B mostly works on A's key (the pair races on one register)
     if same_key {
       if let Some(ks) = a.keys() {
@@ -503,8 +508,29 @@ pub fn scenario_strategy(f: Focus) -> impl Strategy<Value = Scenario> {
         }
       }
     }
-    let mut sc = Scenario { cfg, setup, a, pa, b, pb, step_ms, suffix };
+    let mut sc = Scenario { cfg, setup: vec![], a, pa, b, pb, step_ms, suffix: vec![] };
     normalise(&mut sc);
+    let ka = sc.a.keys().and_then(|k| k.first().copied()).unwrap_or(0);
+    let kb = sc.b.keys().and_then(|k| k.first().copied()).unwrap_or(0);
+    if let (Some((on_b, by_load, x)), Some(ttl)) = (prelude, sc.cfg.ttl_ms) {
+      // in clock-step scenarios it is mostly B whose result depends on the time
+      let k = if on_b || sc.step_ms.is_some() { kb } else { ka };
+      let op = if by_load && sc.cfg.loader != PLoader::None { POp::FetchWith { a: false, k } } else { POp::Insert { a: false, k, c: 1 } };
+      setup.push(SOp::Op(op));
+      setup.push(SOp::Advance(ttl as u16 + x));
+    }
+    sc.setup = setup;
+    // the suffix mostly revisits the keys the pair worked on
+    sc.suffix = suffix
+      .into_iter()
+      .enumerate()
+      .map(|(i, (mut op, on_pair))| {
+        if on_pair {
+          set_key(&mut op, if i % 2 == 0 { ka } else { kb });
+        }
+        op
+      })
+      .collect();
     sc
   })
 }
@@ -556,6 +582,10 @@ fn normalise(sc: &mut Scenario) {
     }
     if spans(&sc.b) {
       sc.b = POp::Get { a: false, k: 1 };
+    }
+    if sc.cfg.swr_ms.is_some() && is_fetch_with(&sc.a) && is_fetch_with(&sc.b) {
+      // (see the exclusion above: not two fetch_with on different keys with a grace window)
+      sc.a = POp::Compute { a: false, k: sc.a.keys().unwrap()[0], form: 0 };
     }
     let ka = sc.a.keys().unwrap()[0];
     let kb = sc.b.keys().unwrap()[0];
@@ -1041,6 +1071,7 @@ struct RunInfo {
   second_done_before_step: bool,
   busy: bool,
   resident_cost_known: Option<u64>,
+  postlude: Option<String>,
 }
 
 enum RunErr {
@@ -1282,6 +1313,22 @@ fn run_in(w: &Arc<World>, sc: &Scenario, plan: Plan) -> Result<(Outcome, RunInfo
   }
   let cost_after_purge = w.cache.metrics().current_cost;
   let left_after_purge = w.cache.iter().filter(|(k, _)| k.0 != SENTINEL).count();
+  // postlude: every key is gone now; a fetch_with must run the loader exactly once more and return that load
+  if sc.cfg.loader != PLoader::None {
+    for k in 0..NK {
+      let before = loads.get(&k).copied().unwrap_or(0);
+      let got = (*w.cache.fetch_with(&PKey(k))).clone();
+      if !w.settle(long) {
+        return Err(RunErr::Inconclusive("postlude: loader task still running".into()));
+      }
+      let after = w.sh.loads.log.lock().unwrap().iter().filter(|(x, _)| *x == k).count() as u32;
+      let expect = Val { key: k, wid: LOAD_BASE + k as u64 * 1000 + before as u64 + 1, n: 0 };
+      if after != before + 1 || got != expect {
+        info.postlude = Some(format!("after every key was removed, fetch_with({k}) returned {got:?} and the loader ran {} time(s) for it; expected one new load returning {expect:?} ({before} loads of that key before)", after - before));
+        break;
+      }
+    }
+  }
   Ok((Outcome { ra, rb, suffix, map, extra_keys, loads, cost, notifs, cost_after_purge, left_after_purge }, info))
 }
 
@@ -1416,6 +1463,13 @@ pub fn execute(sc: &Scenario) -> Result<CaseReport, Failure> {
     if conc.cost != sum {
       return Err(fail("C13", "current_cost_differs_from_resident_cost", format!("after both operations returned: metrics().current_cost = {} ({}), the resident entries {:?} cost {sum}", conc.cost, conc.cost as i64, conc.map)));
     }
+  }
+
+  // C15: "A later miss after invalidation or expiry triggers exactly one new load"; C11: "a read ... a
+  // fetch_with hit ... never returns ... a removed value (no resurrection)"
+  if let Some(msg) = &info.postlude {
+    let p = if prop == "C11" { "C11" } else { "C15" };
+    return Err(fail(p, "fetch_with_after_removal_did_not_load_once", msg.clone()));
   }
 
   // ---- references ----
